@@ -2,8 +2,10 @@ package gen
 
 import (
 	"strings"
+	"sync"
 
 	"google.golang.org/protobuf/proto"
+	"google.golang.org/protobuf/reflect/protodesc"
 	"google.golang.org/protobuf/types/descriptorpb"
 
 	"github.com/bufbuild/protocompile/internal/verifmon/vlib"
@@ -116,4 +118,53 @@ func CompareNormalized(got, want *descriptorpb.FileDescriptorProto, res TypeReso
 		d = "proto.Equal is false but no structural difference was found (unknown-field order?)"
 	}
 	return d, nil
+}
+
+var (
+	descSrcOnce sync.Once
+	descSrc     string
+	descSrcErr  error
+)
+
+// DescriptorProtoSource returns source text for google/protobuf/descriptor.proto, rendered from the
+// descriptor linked into the Go runtime (used to exercise the compiler's "overridden descriptor.proto" path).
+func DescriptorProtoSource() (string, error) {
+	descSrcOnce.Do(func() {
+		fd := protodesc.ToFileDescriptorProto(descriptorpb.File_google_protobuf_descriptor_proto)
+		descSrc, descSrcErr = Render(fd, nil, nil)
+	})
+	return descSrc, descSrcErr
+}
+
+// WellKnownImports are files every compilation can import from the standard imports (supplied as built descriptors).
+var WellKnownImports = []string{
+	"google/protobuf/compiler/plugin.proto", "google/protobuf/api.proto", "google/protobuf/type.proto", "google/protobuf/any.proto",
+	"google/protobuf/timestamp.proto", "google/protobuf/descriptor.proto", "google/protobuf/struct.proto", "google/protobuf/wrappers.proto",
+}
+
+// InjectImports adds import statements for the given files right after the syntax/edition line of src
+// (imports the text already has are skipped). The imports are unused, which is a warning, not an error.
+func InjectImports(src string, files []string) string {
+	lines := strings.Split(src, "\n")
+	at := -1
+	for i, l := range lines {
+		t := strings.TrimSpace(l)
+		if strings.HasPrefix(t, "syntax") || strings.HasPrefix(t, "edition") {
+			at = i
+			break
+		}
+	}
+	var add []string
+	for _, f := range files {
+		if !strings.Contains(src, `"`+f+`"`) && !strings.Contains(src, `'`+f+`'`) {
+			add = append(add, `import "`+f+`";`)
+		}
+	}
+	if len(add) == 0 {
+		return src
+	}
+	out := append([]string{}, lines[:at+1]...)
+	out = append(out, add...)
+	out = append(out, lines[at+1:]...)
+	return strings.Join(out, "\n")
 }
